@@ -189,6 +189,15 @@ func c06Nodes(rng *rand.Rand, n int) []*node.Node {
 		}
 	}
 	res = append(res, gen.MustNode("/a", "b c"), gen.MustNode("/a", "bc"), gen.MustNode("/a", "b  c"), gen.MustNode("/A", "bc"))
+	// long types and ids (lengths around powers of two) that agree on a long
+	// prefix and differ at the very end, or in length only
+	for _, tl := range []int{3, 31, 40, 63, 64, 65, 130} {
+		ty := "/" + strings.Repeat("t", tl-1)
+		for _, il := range []int{1, 8, 30, 63, 64, 65, 127, 128, 129, 300} {
+			base := strings.Repeat("0", il-1)
+			res = append(res, gen.MustNode(ty, base+"1"), gen.MustNode(ty, base+"2"), gen.MustNode(ty, base+"12"))
+		}
+	}
 	for i := 0; i < n; i++ {
 		res = append(res, gen.HNode(rng))
 	}
@@ -216,6 +225,10 @@ func c06Preds(rng *rand.Rand, n int) []*predicate.Predicate {
 	b := make([]byte, 16)
 	binary.PutVarint(b, c06T0.UnixNano())
 	res = append(res, gen.MustImm("p"+string(b)), gen.MustTemp("p"+string(b[:3]), c06T0), gen.MustImm(string(b)))
+	for _, l := range []int{15, 16, 17, 63, 64, 65, 255, 256, 257} {
+		base := strings.Repeat("i", l-1)
+		res = append(res, gen.MustImm(base+"a"), gen.MustImm(base+"b"), gen.MustTemp(base+"a", c06T0), gen.MustTemp(base+"b", c06T0), gen.MustTemp(base+"ab", c06T0))
+	}
 	// boundary shifts between the id and what follows it, under several
 	// hypotheses about how the rest is encoded (a trimmed varint, an unsigned
 	// varint, decimal text): (id, anchor) against (id + first k bytes of the
@@ -303,6 +316,15 @@ func c06Lits(rng *rand.Rand, n int) []*literal.Literal {
 		b := make([]byte, 8)
 		binary.LittleEndian.PutUint64(b, math.Float64bits(f))
 		add(literal.Blob, b)
+	}
+	// long texts and blobs that differ in their last byte or in length only
+	for _, l := range []int{15, 16, 17, 63, 64, 65, 255, 256, 257, 4095, 4096, 4097} {
+		base := strings.Repeat("x", l-1)
+		add(literal.Text, base+"a")
+		add(literal.Text, base+"b")
+		add(literal.Text, base+"ab")
+		add(literal.Blob, []byte(base+"a"))
+		add(literal.Blob, []byte(base+"c"))
 	}
 	for i := 0; i < n; i++ {
 		res = append(res, gen.HLit(rng, false))
